@@ -424,6 +424,81 @@ def r06_g(prog: Program, chk: Check) -> None:
         raise AnchorError(f"{len(unsupported)} calls cannot be modelled; first: {unsupported[0]}")
 
 
+# ------------------------------------------------------------------- R06.h
+def _generic_hierarchy():
+    import typing
+
+    T = typing.TypeVar("T")
+    U = typing.TypeVar("U")
+    A = typing.TypeVar("A")
+    B = typing.TypeVar("B")
+
+    class Base(typing.Generic[T]):
+        tag = "base"
+
+        def put(self, item: T) -> None: ...
+
+        def get(self) -> T: ...  # type: ignore[empty-body]
+
+    class Same(Base[T]):
+        def own(self, item: T) -> None: ...
+
+    class IntBase(Base[int]):
+        def own(self) -> int: ...  # type: ignore[empty-body]
+
+    class Renamed(Base[U]):
+        pass
+
+    class Pair(typing.Generic[A, B]):
+        def first(self) -> A: ...  # type: ignore[empty-body]
+
+    class Flipped(Pair[B, A]):
+        def put(self, item: A) -> None: ...
+
+    class Deep(IntBase):
+        def get(self) -> int: ...  # type: ignore[empty-body]
+
+    class Mixed(Renamed[str], Pair[int, str]):
+        pass
+
+    return [Base, Same, IntBase, Renamed, Pair, Flipped, Deep, Mixed]
+
+
+def r06_h(prog: Program, chk: Check) -> None:
+    from . import attribute_model as atm
+
+    chk.rule(
+        "R06.h",
+        "the class that provides an inherited method is the class that defines it: attributes._get_attribute_from_mro is interpreted from its AST (the attribute model of C19 R19.6) "
+        "on eight real classes of a generic hierarchy (Base[T]; Same(Base[T]); IntBase(Base[int]); Renamed(Base[U]); Pair[A, B]; Flipped(Pair[B, A]); a grandchild; a class with two "
+        "generic bases) for every method and class attribute they have: the provider it returns - the key under which _substitute_typevars looks up the map from the defining class's "
+        "type parameters to the receiver's type arguments - is the first class of the MRO whose __dict__ holds the name; with any other class an inherited `put(item: T)` keeps a "
+        "free T on IntBase and every argument is accepted",
+        floor=2,
+    )
+    m = atm.AttributeModel(prog)
+    wrong, crashes = [], []
+    n = 0
+    for cls in _generic_hierarchy():
+        names = sorted({k for c in cls.__mro__ if c is not object and c.__module__ != "typing" for k in vars(c) if not k.startswith("_")})
+        for attr in names:
+            n += 1
+            want = next(c for c in cls.__mro__ if attr in vars(c))
+            d = {"receiver": f"{cls.__name__}({', '.join(getattr(b, '__name__', repr(b)) for b in getattr(cls, '__orig_bases__', cls.__bases__))})", "attribute": attr, "defined in": want.__name__}
+            r = m.provider(cls, attr)
+            if r[0] == "crash":
+                crashes.append({**d, "error": r[1]})
+            elif r[0] == "missing":
+                wrong.append({**d, "provider": "not found"})
+            elif r[1] is not want:
+                wrong.append({**d, "provider": getattr(r[1], "__name__", repr(r[1]))})
+    chk.model_evaluations += n
+    site = prog.site("attributes", prog.func("attributes", "_get_attribute_from_mro"))
+    wrong.sort(key=lambda x: len(repr(x)))
+    chk.ob("R06.h", "attributes::_get_attribute_from_mro::the provider is the defining class", not wrong, site, f"{n} (class, attribute) pairs, {len(wrong)} with another provider" + (f"; smallest: {wrong[0]}" if wrong else ""), witness=wrong[:5])
+    chk.ob("R06.h", "attributes::_get_attribute_from_mro::no-crash", not crashes, site, f"{len(crashes)} crashes" + (f"; first: {crashes[0]}" if crashes else ""), witness=crashes[:3])
+
+
 def run(prog: Program, chk: Check) -> None:
     guard(chk, r06_cd, prog, chk)
     guard(chk, r06_a, prog, chk)
@@ -431,3 +506,4 @@ def run(prog: Program, chk: Check) -> None:
     guard(chk, r06_e, prog, chk)
     guard(chk, r06_f, prog, chk)
     guard(chk, r06_g, prog, chk)
+    guard(chk, r06_h, prog, chk)
